@@ -317,17 +317,33 @@ func runC10(c *Checker) {
 					switch fieldName(fa.X.Type(), fa.Field) {
 					case "received":
 						nRecv++
-						mk, isMake := st.Val.(*ssa.MakeSlice)
-						if !isMake {
-							bad = "received is assigned something else than a make at " + c.P.Pos(st.Pos())
+						// make([]T, K) with constant K: a MakeSlice, or new [K]T sliced in full
+						kv, ok := int64(0), false
+						switch mk := st.Val.(type) {
+						case *ssa.MakeSlice:
+							if k, isConst := mk.Len.(*ssa.Const); isConst {
+								kv, ok = constInt64(k)
+							}
+						case *ssa.Slice:
+							if al, isAlloc := mk.X.(*ssa.Alloc); isAlloc && mk.Low == nil {
+								if n, isArr := arrayLen(al.Type()); isArr {
+									kv, ok = n, true
+									if mk.High != nil {
+										h, isConst := mk.High.(*ssa.Const)
+										hv, hok := int64(0), false
+										if isConst {
+											hv, hok = constInt64(h)
+										}
+										ok = hok && hv == n
+									}
+								}
+							}
+						}
+						if !ok {
+							bad = "received is assigned something else than a make of constant length at " + c.P.Pos(st.Pos())
 							break
 						}
-						k, isConst := mk.Len.(*ssa.Const)
-						kv, ok := int64(0), false
-						if isConst {
-							kv, ok = constInt64(k)
-						}
-						if !ok || kv <= 0 || (K >= 0 && K != kv) {
+						if kv <= 0 || (K >= 0 && K != kv) {
 							bad = "received is not made with one constant length"
 						}
 						K = kv
